@@ -16,8 +16,9 @@
    bleve builds for q under the request options o (leaf queries are cursors over their own meaning,
    which is what C08's reader theorems and the correspondence establish) — and for every
    [linkable] query the machine built for that tree enumerates exactly [sem tr c q], whatever the
-   options.  [linkable] excludes two shapes for which bleve and [sem] genuinely differ
-   (C02_link_negative_min_refuted, C02_link_single_min_refuted). *)
+   options.  [linkable] excludes one shape for which bleve and [sem] genuinely differ
+   (C02_link_single_min_refuted); negative minimums, excluded until /repo 895ea25 made
+   BooleanSearcher test Min() <= 0, are covered (C02_link_negative_min_values). *)
 From Coq Require Import ZArith List Bool Sorted.
 From Verif Require Import Common.Bytes Numeric.Model Cursor.Sem Cursor.SemProofsStr Cursor.SemProofs.
 Import ListNotations.
@@ -268,8 +269,8 @@ Print Assumptions C02_corpus_wfb_spec.
    (score "none", term vectors, which leaf searchers are Optimizable, DisjunctionHeapTakeover,
    DisjunctionMaxClauseCount); [tree_of tr o c q] = the searcher tree of BooleanQuery /
    ConjunctionQuery / DisjunctionQuery.Searcher (None = the clause-count error); [linkable q] =
-   no boolean node with both must and should clauses has min_should <= -1, and no disjunction /
-   should list with exactly one clause has int(min) >= 2.  From Cursor/Machines.v (C08):
+   no disjunction / should list with exactly one clause has int(min) >= 2 (negative minimums
+   are linkable).  From Cursor/Machines.v (C08):
    [build t] = the searcher state machine of tree t, [run fuel s prog] = its results on a program
    of Next / Advance calls, [denote t] = the tree's set expression, [wf t] = C08's hypothesis. *)
 From Verif Require Import Cursor.Cursor Cursor.Machines Cursor.MachProofsTree Cursor.Link
@@ -351,15 +352,21 @@ Theorem C02_conj_pushdown_invariant : forall (B : Z -> Prop) ls ls',
 Proof. exact conj_pushdown_invariant. Qed.
 Print Assumptions C02_conj_pushdown_invariant.
 
-(* outside [linkable] (1): must + should with min_should <= -1 — int(min) is a non-zero Min(), the
-   BooleanSearcher requires a should match that the documented reading does not *)
-Theorem C02_link_negative_min_refuted :
-  exists o c q t, corpus_wf c /\ tree_of true o c q = Some t /\ wf t /\ linkable q = false /\
-    denote t <> sem true c q.
-Proof. exact link_negative_min_refuted. Qed.
-Print Assumptions C02_link_negative_min_refuted.
+(* formerly outside [linkable]: must + should with min_should <= -1.  int(min) is a negative Min();
+   since /repo 895ea25 BooleanSearcher tests Min() <= 0, as Machines.v does, and the tree denotes
+   what the documented reading says (should optional) under every option setting *)
+Theorem C02_link_negative_min_values :
+  (forall o min2, In o [opts_scoring; opts_score_none; opts_upsidedown false; opts_upsidedown true] ->
+     In min2 [-2; -4; -1; -2000000; 0; 1] ->
+     linkable (neg_query min2) = true /\
+     match tree_of true o neg_corpus (neg_query min2) with Some t => denote t = [1; 2] | None => False end) /\
+  (forall min2, In min2 [-2; -4; -1; -2000000; 0; 1] -> sem true neg_corpus (neg_query min2) = [1; 2]) /\
+  (match tree_of true opts_scoring neg_corpus (neg_query 2) with Some t => denote t = [2] | None => False end) /\
+  sem true neg_corpus (neg_query 2) = [2].
+Proof. exact link_negative_min_values. Qed.
+Print Assumptions C02_link_negative_min_values.
 
-(* outside [linkable] (2): a one-clause disjunction with int(min) >= 2 inside an optimisable
+(* outside [linkable]: a one-clause disjunction with int(min) >= 2 inside an optimisable
    compound — right with scoring, wrong (and different) under score "none" *)
 Theorem C02_link_single_min_refuted :
   exists c q t1 t2, corpus_wf c /\ linkable q = false /\
